@@ -15,12 +15,12 @@ import (
 type leafKind int
 
 const (
-	lkInt   leafKind = iota // integer of some Go basic type (range from Typ)
+	lkInt leafKind = iota // integer of some Go basic type (range from Typ)
 	lkBool
 	lkStr
-	lkRef    // object reference (pointer, map, func, chan); 0 = nil
-	lkSlRef  // slice backing reference
-	lkSlOff  // slice offset into backing
+	lkRef   // object reference (pointer, map, func, chan); 0 = nil
+	lkSlRef // slice backing reference
+	lkSlOff // slice offset into backing
 	lkSlLen
 	lkSlCap
 	lkIfTag // dynamic type id of an interface value; 0 = nil interface
@@ -210,7 +210,7 @@ func wrapInt(t types.Type, x T) T {
 type unsupportedErr struct{ msg string }
 
 func (u unsupportedErr) Error() string { return "unsupported: " + u.msg }
-func unsupported(msg string) error   { return unsupportedErr{msg} }
+func unsupported(msg string) error     { return unsupportedErr{msg} }
 
 func zeroLeaf(l Leaf) T {
 	switch l.Sort {
